@@ -23,6 +23,7 @@ def run_case(case):
         c = SimCluster(loop, n_brokers=case["brokers"], rng=rng)
         c.add_topic("t", case["partitions"])
         c.metadata_shuffle = random.Random(case["seed"] + 1)
+        c.metadata_partition_errors = {("t", int(q)): code for q, code in (case.get("partition_errors") or {}).items()}
         for p in case.get("leaderless", []):
             c.log("t", p).leader = -1
         return c
